@@ -122,7 +122,7 @@ Record thr := mkThr {
   t_dead : bool;             (* reached die() *)
   t_ready : bool;
   t_fin : bool;
-  t_tid : Z;
+  t_tid : Z;                 (* rthread.tid = key of the thread directory; 0 until FsCreate *)
   t_buf : list item;         (* events in rthread.evbuf *)
   t_meta : list mitem;       (* rthread.meta as the sequence of sets *)
   t_cpus : list (Z * Z);
